@@ -186,7 +186,7 @@ var c09Tasks = []int{0, 1, 2, 3, 4, 5, 6, 7, 8, 9, 10, 11, 12, 13, 14, 15, 16, 1
 func init() {
 	core.Register(&core.Check{
 		ID: "C09", Level: "model_checking",
-		Rule:        "(a) public entry: n in 0..64 x NbTasks in {0..17,31,32,33,63,64,65,127,128,129,256,1024} x {Montgomery, regular} x small-scalar share {0,50,100%} x point menu {distinct CRS points in 4 representations, mixed with identities and duplicates, all identity}, and the cost-model thresholds 48,49,128,129,320,321,768,769,1792,1793,4096,4097,9216,9217 x NbTasks {1,16,17,64,1024} x share {0,9,10%}; (b) internal entry for every implemented window c in {4..16} (20,21,22 thorough) x splitFirstChunk x n in {0,1,2,3,5,64}; (c) partitionScalars for every c: every chunk position x boundary digits x carry-in (full digit range for c<=8), checked against the recoding identity; (d) ALL schedules (DPOR, unbounded) of the fan-in/fan-out of c in {4,5,8} and of the split public entry on n<=3: one outcome, no deadlock state; (e) NbTasks=0 under the NumCPU seam; (f) length mismatch; oracle: reference naive sum (n<=64) or closed form over points with known discrete logs; a state is a decision point of the explored schedule tree",
+		Rule:        "(a) public entry: n in 0..64 x NbTasks in {0..17,31,32,33,63,64,65,127,128,129,256,1024} x {Montgomery, regular} x small-scalar share {0,50,100%} x point menu {distinct CRS points in 4 representations, mixed with identities and duplicates, all identity}, and the cost-model thresholds 48,49,128,129,320,321,768,769,1792,1793,4096,4097,9216,9217 x NbTasks {1,16,17,64,1024} x share {0,9,10%}; (b) internal entry for every implemented window c in {4..16} (20,21,22 thorough) x splitFirstChunk x n in {0,1,2,3,5,64}; (c) partitionScalars for every c: every chunk position x boundary digits x carry-in (full digit range for c<=8), checked against the recoding identity; (d) ALL schedules (DPOR, unbounded) of the fan-in/fan-out of c in {4,5,8} and of the split public entry on n<=3: one outcome, no deadlock state; (e) NbTasks=0 under the NumCPU seam; (f) length mismatch; (g) the same point/scalar slices reused with replaced content across calls, and writes through the returned element must not reach package state; oracle: reference naive sum (n<=64) or closed form over points with known discrete logs; a state is a decision point of the explored schedule tree",
 		Assume:      []string{"NbTasks <= 1024, regular-form scalars < r", "termination of free-running calls is judged with a 15-minute limit per unit (units take seconds); in scheduled mode deadlock = no enabled goroutine"},
 		UnitTimeout: 15 * time.Minute,
 		Units:       c09Units,
